@@ -120,7 +120,7 @@ def classify(p):
     sw = {}
     for key, lst in p.facts.items():
         for c, s in lst:
-            if c is None or not (0 < c <= Fraction(1, 10 ** 5)):
+            if c is None or not (0 < c <= Fraction(1, 10 ** 2)):
                 continue
             cur = sw.get((key, c), symex.ALL4)
             sw[(key, c)] = cur & s
